@@ -46,6 +46,9 @@ theories/Cont/QueueOps1.vos theories/Cont/QueueOps1.vok theories/Cont/QueueOps1.
 theories/Cont/QueueOps2.vo theories/Cont/QueueOps2.glob theories/Cont/QueueOps2.v.beautified theories/Cont/QueueOps2.required_vo: theories/Cont/QueueOps2.v theories/Cont/QueueModel.vo theories/Cont/QueueLemmas.vo theories/Cont/QueueInv.vo theories/Cont/QueueOps1.vo theories/Cont/QueueEnsure.vo
 theories/Cont/QueueOps2.vio: theories/Cont/QueueOps2.v theories/Cont/QueueModel.vio theories/Cont/QueueLemmas.vio theories/Cont/QueueInv.vio theories/Cont/QueueOps1.vio theories/Cont/QueueEnsure.vio
 theories/Cont/QueueOps2.vos theories/Cont/QueueOps2.vok theories/Cont/QueueOps2.required_vos: theories/Cont/QueueOps2.v theories/Cont/QueueModel.vos theories/Cont/QueueLemmas.vos theories/Cont/QueueInv.vos theories/Cont/QueueOps1.vos theories/Cont/QueueEnsure.vos
+theories/Cont/QueueOps3.vo theories/Cont/QueueOps3.glob theories/Cont/QueueOps3.v.beautified theories/Cont/QueueOps3.required_vo: theories/Cont/QueueOps3.v theories/Cont/QueueModel.vo theories/Cont/QueueLemmas.vo theories/Cont/QueueInv.vo theories/Cont/QueueOps1.vo theories/Cont/QueueEnsure.vo theories/Cont/QueueOps2.vo
+theories/Cont/QueueOps3.vio: theories/Cont/QueueOps3.v theories/Cont/QueueModel.vio theories/Cont/QueueLemmas.vio theories/Cont/QueueInv.vio theories/Cont/QueueOps1.vio theories/Cont/QueueEnsure.vio theories/Cont/QueueOps2.vio
+theories/Cont/QueueOps3.vos theories/Cont/QueueOps3.vok theories/Cont/QueueOps3.required_vos: theories/Cont/QueueOps3.v theories/Cont/QueueModel.vos theories/Cont/QueueLemmas.vos theories/Cont/QueueInv.vos theories/Cont/QueueOps1.vos theories/Cont/QueueEnsure.vos theories/Cont/QueueOps2.vos
 theories/Cont/QueueProofs.vo theories/Cont/QueueProofs.glob theories/Cont/QueueProofs.v.beautified theories/Cont/QueueProofs.required_vo: theories/Cont/QueueProofs.v theories/Cont/QueueModel.vo
 theories/Cont/QueueProofs.vio: theories/Cont/QueueProofs.v theories/Cont/QueueModel.vio
 theories/Cont/QueueProofs.vos theories/Cont/QueueProofs.vok theories/Cont/QueueProofs.required_vos: theories/Cont/QueueProofs.v theories/Cont/QueueModel.vos
@@ -88,6 +91,9 @@ theories/Gw/Tunnel.vos theories/Gw/Tunnel.vok theories/Gw/Tunnel.required_vos: t
 theories/Gw/TunnelProofs.vo theories/Gw/TunnelProofs.glob theories/Gw/TunnelProofs.v.beautified theories/Gw/TunnelProofs.required_vo: theories/Gw/TunnelProofs.v theories/Common/LE.vo theories/Gen/Consts.vo theories/Gw/Tunnel.vo
 theories/Gw/TunnelProofs.vio: theories/Gw/TunnelProofs.v theories/Common/LE.vio theories/Gen/Consts.vio theories/Gw/Tunnel.vio
 theories/Gw/TunnelProofs.vos theories/Gw/TunnelProofs.vok theories/Gw/TunnelProofs.required_vos: theories/Gw/TunnelProofs.v theories/Common/LE.vos theories/Gen/Consts.vos theories/Gw/Tunnel.vos
+theories/Gw/TunnelSound.vo theories/Gw/TunnelSound.glob theories/Gw/TunnelSound.v.beautified theories/Gw/TunnelSound.required_vo: theories/Gw/TunnelSound.v theories/Common/LE.vo theories/Gen/Consts.vo theories/Gw/Tunnel.vo theories/Gw/TunnelProofs.vo
+theories/Gw/TunnelSound.vio: theories/Gw/TunnelSound.v theories/Common/LE.vio theories/Gen/Consts.vio theories/Gw/Tunnel.vio theories/Gw/TunnelProofs.vio
+theories/Gw/TunnelSound.vos theories/Gw/TunnelSound.vok theories/Gw/TunnelSound.required_vos: theories/Gw/TunnelSound.v theories/Common/LE.vos theories/Gen/Consts.vos theories/Gw/Tunnel.vos theories/Gw/TunnelProofs.vos
 theories/Msg/MsgApi.vo theories/Msg/MsgApi.glob theories/Msg/MsgApi.v.beautified theories/Msg/MsgApi.required_vo: theories/Msg/MsgApi.v theories/Gen/Consts.vo theories/Msg/MsgDefs.vo theories/Msg/MsgModel.vo
 theories/Msg/MsgApi.vio: theories/Msg/MsgApi.v theories/Gen/Consts.vio theories/Msg/MsgDefs.vio theories/Msg/MsgModel.vio
 theories/Msg/MsgApi.vos theories/Msg/MsgApi.vok theories/Msg/MsgApi.required_vos: theories/Msg/MsgApi.v theories/Gen/Consts.vos theories/Msg/MsgDefs.vos theories/Msg/MsgModel.vos
@@ -115,6 +121,9 @@ theories/Properties_C01.vos theories/Properties_C01.vok theories/Properties_C01.
 theories/Properties_C03.vo theories/Properties_C03.glob theories/Properties_C03.v.beautified theories/Properties_C03.required_vo: theories/Properties_C03.v theories/Gw/GwBase.vo theories/Gw/FrameModel.vo theories/Gw/FrameProofs.vo
 theories/Properties_C03.vio: theories/Properties_C03.v theories/Gw/GwBase.vio theories/Gw/FrameModel.vio theories/Gw/FrameProofs.vio
 theories/Properties_C03.vos theories/Properties_C03.vok theories/Properties_C03.required_vos: theories/Properties_C03.v theories/Gw/GwBase.vos theories/Gw/FrameModel.vos theories/Gw/FrameProofs.vos
+theories/Properties_C04.vo theories/Properties_C04.glob theories/Properties_C04.v.beautified theories/Properties_C04.required_vo: theories/Properties_C04.v theories/Refl/Base.vo theories/Refl/Tree.vo theories/Refl/TreeProofs.vo
+theories/Properties_C04.vio: theories/Properties_C04.v theories/Refl/Base.vio theories/Refl/Tree.vio theories/Refl/TreeProofs.vio
+theories/Properties_C04.vos theories/Properties_C04.vok theories/Properties_C04.required_vos: theories/Properties_C04.v theories/Refl/Base.vos theories/Refl/Tree.vos theories/Refl/TreeProofs.vos
 theories/Properties_C09.vo theories/Properties_C09.glob theories/Properties_C09.v.beautified theories/Properties_C09.required_vo: theories/Properties_C09.v theories/Cont/HtModel.vo theories/Cont/HtStep.vo theories/Cont/HtIdeal.vo theories/Cont/HtProofs.vo
 theories/Properties_C09.vio: theories/Properties_C09.v theories/Cont/HtModel.vio theories/Cont/HtStep.vio theories/Cont/HtIdeal.vio theories/Cont/HtProofs.vio
 theories/Properties_C09.vos theories/Properties_C09.vok theories/Properties_C09.required_vos: theories/Properties_C09.v theories/Cont/HtModel.vos theories/Cont/HtStep.vos theories/Cont/HtIdeal.vos theories/Cont/HtProofs.vos
@@ -127,6 +136,9 @@ theories/Properties_C12.vos theories/Properties_C12.vok theories/Properties_C12.
 theories/Properties_C13.vo theories/Properties_C13.glob theories/Properties_C13.v.beautified theories/Properties_C13.required_vo: theories/Properties_C13.v theories/Refl/Index.vo theories/Refl/IndexProofs.vo
 theories/Properties_C13.vio: theories/Properties_C13.v theories/Refl/Index.vio theories/Refl/IndexProofs.vio
 theories/Properties_C13.vos theories/Properties_C13.vok theories/Properties_C13.required_vos: theories/Properties_C13.v theories/Refl/Index.vos theories/Refl/IndexProofs.vos
+theories/Properties_C15.vo theories/Properties_C15.glob theories/Properties_C15.v.beautified theories/Properties_C15.required_vo: theories/Properties_C15.v theories/Gen/Consts.vo theories/Pat/Ere.vo theories/Pat/Translate.vo theories/Pat/PatProofs.vo
+theories/Properties_C15.vio: theories/Properties_C15.v theories/Gen/Consts.vio theories/Pat/Ere.vio theories/Pat/Translate.vio theories/Pat/PatProofs.vio
+theories/Properties_C15.vos theories/Properties_C15.vok theories/Properties_C15.required_vos: theories/Properties_C15.v theories/Gen/Consts.vos theories/Pat/Ere.vos theories/Pat/Translate.vos theories/Pat/PatProofs.vos
 theories/Properties_C16.vo theories/Properties_C16.glob theories/Properties_C16.v.beautified theories/Properties_C16.required_vo: theories/Properties_C16.v theories/Cont/QueueModel.vo theories/Cont/QueueProofs.vo
 theories/Properties_C16.vio: theories/Properties_C16.v theories/Cont/QueueModel.vio theories/Cont/QueueProofs.vio
 theories/Properties_C16.vos theories/Properties_C16.vok theories/Properties_C16.required_vos: theories/Properties_C16.v theories/Cont/QueueModel.vos theories/Cont/QueueProofs.vos
@@ -160,6 +172,21 @@ theories/Refl/IndexProofs.vos theories/Refl/IndexProofs.vok theories/Refl/IndexP
 theories/Refl/Matcher.vo theories/Refl/Matcher.glob theories/Refl/Matcher.v.beautified theories/Refl/Matcher.required_vo: theories/Refl/Matcher.v theories/Refl/Base.vo theories/Refl/Tree.vo
 theories/Refl/Matcher.vio: theories/Refl/Matcher.v theories/Refl/Base.vio theories/Refl/Tree.vio
 theories/Refl/Matcher.vos theories/Refl/Matcher.vok theories/Refl/Matcher.required_vos: theories/Refl/Matcher.v theories/Refl/Base.vos theories/Refl/Tree.vos
+theories/Refl/Mirror.vo theories/Refl/Mirror.glob theories/Refl/Mirror.v.beautified theories/Refl/Mirror.required_vo: theories/Refl/Mirror.v theories/Refl/Base.vo theories/Refl/Tree.vo theories/Refl/Matcher.vo theories/Refl/Traverse.vo theories/Refl/Session.vo theories/Refl/Server.vo
+theories/Refl/Mirror.vio: theories/Refl/Mirror.v theories/Refl/Base.vio theories/Refl/Tree.vio theories/Refl/Matcher.vio theories/Refl/Traverse.vio theories/Refl/Session.vio theories/Refl/Server.vio
+theories/Refl/Mirror.vos theories/Refl/Mirror.vok theories/Refl/Mirror.required_vos: theories/Refl/Mirror.v theories/Refl/Base.vos theories/Refl/Tree.vos theories/Refl/Matcher.vos theories/Refl/Traverse.vos theories/Refl/Session.vos theories/Refl/Server.vos
+theories/Refl/Server.vo theories/Refl/Server.glob theories/Refl/Server.v.beautified theories/Refl/Server.required_vo: theories/Refl/Server.v theories/Gen/Consts.vo theories/Refl/Base.vo theories/Refl/Tree.vo theories/Refl/Matcher.vo theories/Refl/Traverse.vo theories/Refl/Session.vo
+theories/Refl/Server.vio: theories/Refl/Server.v theories/Gen/Consts.vio theories/Refl/Base.vio theories/Refl/Tree.vio theories/Refl/Matcher.vio theories/Refl/Traverse.vio theories/Refl/Session.vio
+theories/Refl/Server.vos theories/Refl/Server.vok theories/Refl/Server.required_vos: theories/Refl/Server.v theories/Gen/Consts.vos theories/Refl/Base.vos theories/Refl/Tree.vos theories/Refl/Matcher.vos theories/Refl/Traverse.vos theories/Refl/Session.vos
+theories/Refl/Session.vo theories/Refl/Session.glob theories/Refl/Session.v.beautified theories/Refl/Session.required_vo: theories/Refl/Session.v theories/Refl/Base.vo theories/Refl/Tree.vo theories/Refl/Matcher.vo
+theories/Refl/Session.vio: theories/Refl/Session.v theories/Refl/Base.vio theories/Refl/Tree.vio theories/Refl/Matcher.vio
+theories/Refl/Session.vos theories/Refl/Session.vok theories/Refl/Session.required_vos: theories/Refl/Session.v theories/Refl/Base.vos theories/Refl/Tree.vos theories/Refl/Matcher.vos
+theories/Refl/Traverse.vo theories/Refl/Traverse.glob theories/Refl/Traverse.v.beautified theories/Refl/Traverse.required_vo: theories/Refl/Traverse.v theories/Refl/Base.vo theories/Refl/Tree.vo theories/Refl/Matcher.vo
+theories/Refl/Traverse.vio: theories/Refl/Traverse.v theories/Refl/Base.vio theories/Refl/Tree.vio theories/Refl/Matcher.vio
+theories/Refl/Traverse.vos theories/Refl/Traverse.vok theories/Refl/Traverse.required_vos: theories/Refl/Traverse.v theories/Refl/Base.vos theories/Refl/Tree.vos theories/Refl/Matcher.vos
 theories/Refl/Tree.vo theories/Refl/Tree.glob theories/Refl/Tree.v.beautified theories/Refl/Tree.required_vo: theories/Refl/Tree.v theories/Refl/Base.vo
 theories/Refl/Tree.vio: theories/Refl/Tree.v theories/Refl/Base.vio
 theories/Refl/Tree.vos theories/Refl/Tree.vok theories/Refl/Tree.required_vos: theories/Refl/Tree.v theories/Refl/Base.vos
+theories/Refl/TreeProofs.vo theories/Refl/TreeProofs.glob theories/Refl/TreeProofs.v.beautified theories/Refl/TreeProofs.required_vo: theories/Refl/TreeProofs.v theories/Refl/Base.vo theories/Refl/Tree.vo
+theories/Refl/TreeProofs.vio: theories/Refl/TreeProofs.v theories/Refl/Base.vio theories/Refl/Tree.vio
+theories/Refl/TreeProofs.vos theories/Refl/TreeProofs.vok theories/Refl/TreeProofs.required_vos: theories/Refl/TreeProofs.v theories/Refl/Base.vos theories/Refl/Tree.vos
